@@ -35,6 +35,17 @@ package main
 //@ call ReleasePDU cfg (sst int32, sd string, c stgutg.Conf): sst == c.Configuration.SST && sd == c.Configuration.SD
 //@ call DeregisterUE cfg (mnc string, c stgutg.Conf): mnc == c.Configuration.Mnc
 
+// ---- C18: the repetition counts are the configured ones, clamped to the prerequisite only ----
+// (README: ue_registration UEs are registered; min(ue_registration, ue_pdu) sessions established; of
+// those, min(.., ue_service) service requests and min(.., ue_pdu_release) releases; min(ue_registration,
+// ue_deregistration) deregistrations) — stated where the counts are complete, and each loop runs up to its own count
+//@ call ConnectToAmf counts (pdu_establishment_number int, service_request_number int, pdu_release_number int, ue_deregistration_number int, c stgutg.Conf): pdu_establishment_number == stgutg.Min(c.Configuration.Test_ue_registation, c.Configuration.Test_ue_pdu_establishment) && service_request_number == stgutg.Min(stgutg.Min(c.Configuration.Test_ue_registation, c.Configuration.Test_ue_pdu_establishment), c.Configuration.Test_ue_service) && pdu_release_number == stgutg.Min(stgutg.Min(c.Configuration.Test_ue_registation, c.Configuration.Test_ue_pdu_establishment), c.Configuration.Test_ue_pdu_release) && ue_deregistration_number == stgutg.Min(c.Configuration.Test_ue_registation, c.Configuration.Test_ue_deregistration)
+//@ loop i#2 invariant bound (i int, c stgutg.Conf): i <= c.Configuration.Test_ue_registation || c.Configuration.Test_ue_registation < 0
+//@ loop i#3 invariant bound (i int, pdu_establishment_number int): i <= pdu_establishment_number || pdu_establishment_number < 0
+//@ loop i#4 invariant bound (i int, service_request_number int): i <= service_request_number || service_request_number < 0
+//@ loop i#5 invariant bound (i int, pdu_release_number int): i <= pdu_release_number || pdu_release_number < 0
+//@ loop i#6 invariant bound (i int, ue_deregistration_number int): i <= ue_deregistration_number || ue_deregistration_number < 0
+
 // ---- C02: repetition i of every later step is run for the i-th registered UE (and its stored PDU) ----
 // (elements of the lists are not tracked individually: element i is an unknown but fixed value, read
 // here and at the call through the same index)
